@@ -98,7 +98,10 @@ inductive FieldStop where
   | close
 deriving DecidableEq, Repr
 
-def isBlank (c : Nat) : Bool := c = 32 || (9 ≤ c && c ≤ 13) || c = 0x85 || c = 0xA0
+/-- Rust's `char::is_whitespace` (the Unicode `White_Space` property), as `str::trim` uses it -/
+def isBlank (c : Nat) : Bool :=
+  c = 32 || (9 ≤ c && c ≤ 13) || c = 0x85 || c = 0xA0 || c = 0x1680 || (0x2000 ≤ c && c ≤ 0x200A) ||
+  c = 0x2028 || c = 0x2029 || c = 0x202F || c = 0x205F || c = 0x3000
 
 /-- read a quoted run inside a field: everything up to and including the closing quote `q`
     (`need = 1`), or — for a triple-quoted string — up to three `q` in a row (`need = 3`);
@@ -133,7 +136,10 @@ def scanField : Nat → FieldState → List Nat → Option (FieldState × FieldS
       | [] => none
     else if ch = 61 ∧ st.delims.isEmpty then
       scanField fuel { st with selfDoc := true } rest
-    else if ch = 58 ∧ st.delims.isEmpty then some (st, .spec, rest)
+    else if ch = 58 ∧ st.delims.isEmpty then
+      -- `parse_spec` follows, then the closing `}` arm with its EmptyExpression check; nothing is added to
+      -- `expression` after this colon, so the check is made here (`f'{:x}'`, `f'{=:x}'` are rejected)
+      if st.expr.all isBlank then none else some (st, .spec, rest)
     else if (ch = 40 ∨ ch = 123 ∨ ch = 91) ∧ !st.selfDoc then
       -- after the self-documenting `=` only blanks, `!`, `:` or `}` may follow
       scanField fuel { st with expr := ch :: st.expr, delims := ch :: st.delims } rest
@@ -1006,10 +1012,12 @@ def fstrField : Nat → Bool → Nat → List Nat → Option (List Expr × List 
       | none => none
       | some (spec, r') =>
         let exprText := st.expr.reverse
-        match lex exprText with
+        -- `parse_fstring_expr`: the text "(" ++ expression ++ ")" is lexed and parsed in expression mode (a line
+        -- break inside the field is therefore inside brackets; a `#` starts a comment that swallows the ")")
+        match lex (40 :: (exprText ++ [41])) with
         | none => none
         | some tks =>
-          match parseTop f ((.op .lpar :: tks) ++ [.op .rpar]) with
+          match parseTop f tks with
           | none => none
           | some value =>
             if !st.selfDoc then some ([.formattedValue value st.conv spec], r')
